@@ -382,6 +382,55 @@ func runLongLCS(c *core.Ctx) {
 	}
 }
 
+// runMediumLCS: pairs of one to a few thousand bases (matrices of 2^20 cells and more) that are NOT
+// alike: unrelated, block-rearranged (X+Y against Y+X'), nested, or separated by hundreds of edits,
+// with no bound, with the exact distance as bound and with bounds tied to the lengths. The full
+// matrix reference is still affordable here (a few million cells).
+func runMediumLCS(c *core.Ctx) {
+	var shared []uint64
+	per := c.Pick(5, 20)
+	for k := 0; k < per; k++ {
+		r := c.Rng
+		n := []int{700, 1000, 1024, 1100, 1500, 2000, 2600}[r.Intn(7)] + r.Intn(50)
+		a := gen.DNA(r, n)
+		var b []byte
+		shape := []string{"unrelated", "rearranged", "rearranged", "rearranged", "nested", "many-edits", "few-edits", "tail"}[r.Intn(8)]
+		switch shape {
+		case "unrelated":
+			b = gen.DNA(r, max(600, n+r.Intn(401)-200))
+		case "rearranged":
+			cut := n/16 + r.Intn(3*n/4)
+			b = append(append([]byte{}, a[cut:]...), gen.Mutate(r, a[:cut], r.Intn(6))...)
+		case "nested":
+			from := r.Intn(n / 3)
+			b = gen.Mutate(r, a[from:from+n/2+r.Intn(n/6)], r.Intn(8))
+		case "many-edits":
+			b = gen.Mutate(r, a, n/10+r.Intn(n/5))
+		case "few-edits":
+			b = gen.Mutate(r, a, r.Intn(10))
+		default:
+			b = append(gen.Mutate(r, a, r.Intn(5)), gen.DNA(r, n/8+r.Intn(n/4))...)
+		}
+		if len(b) == 0 {
+			continue
+		}
+		if r.Intn(4) == 0 {
+			a, _ = gen.Ambiguate(r, a, 1+r.Intn(20))
+		}
+		lcs, ali := ref.LCS(a, b, ref.Compatible)
+		d := ali - lcs
+		m := max(len(a), len(b))
+		bounds := []int{-1, d, d - 1, d + 1, m / 8, m/8 + 1, m / 4}
+		lcsCase(c, a, b, bounds, &shared)
+		c.Count("evaluations", len(bounds))
+		c.Count("medium."+shape, 1)
+		c.Key("med/%s/%d/%d/%v", shape, n/300, min(d*16/m, 20), len(a)*len(b) >= 1<<20)
+		if k == 0 {
+			c.Sample(map[string]any{"shape": shape, "len_a": len(a), "len_b": len(b), "ref_lcs": lcs, "ref_alilen": ali, "bounds": bounds})
+		}
+	}
+}
+
 // runConcurrent: the kernels are called by parallel workers (obiclean, obitag, obiconsensus ...): every
 // answer given while other goroutines run the same kernels must be the answer given alone. The
 // sequential answers are themselves compared with the reference first.
@@ -489,6 +538,7 @@ func init() {
 			{Name: "lcs-exhaustive", N: core.Const(nShards, nShards), Run: runExhaustiveLCS},
 			{Name: "lcs-random", N: core.Const(64, 400), Run: runRandomLCS},
 			{Name: "lcs-long", N: core.Const(8, 48), Run: runLongLCS},
+			{Name: "lcs-medium", N: core.Const(16, 64), Run: runMediumLCS},
 			{Name: "egf", N: core.Const(16, 64), Run: runEGF},
 			{Name: "d1-exhaustive", N: core.Const(nShards, nShards), Run: runExhaustiveD1},
 			{Name: "d1-random", N: core.Const(32, 128), Run: runRandomD1},
